@@ -36,6 +36,8 @@ type Conn struct {
 	nsubs    int
 	OnPub    func(Pub) // called outside the lock, in publish order per goroutine
 	cond     *sync.Cond
+	sendMu   sync.RWMutex // held (shared) while delivering; Close waits for deliveries in flight
+	noSend   bool
 }
 
 // New returns a connection.
@@ -114,6 +116,11 @@ func (c *Conn) ChanQueueSubscribe(subject, queue string, ch chan *nats.Msg) (*na
 
 // Close records the close.
 func (c *Conn) Close() {
+	// like a real connection, nothing is delivered to the subscription channels any more
+	// once Close has returned (the service closes its channel right after)
+	c.sendMu.Lock()
+	c.noSend = true
+	c.sendMu.Unlock()
 	c.mu.Lock()
 	c.Closed++
 	c.cond.Broadcast()
@@ -141,6 +148,11 @@ func Matches(sub, subj string) bool {
 // Deliver sends a message to every matching subscription (once per queue
 // group). It returns the number of deliveries.
 func (c *Conn) Deliver(subject, reply string, data []byte) int {
+	c.sendMu.RLock()
+	defer c.sendMu.RUnlock()
+	if c.noSend {
+		return 0
+	}
 	c.mu.Lock()
 	var targets []*Sub
 	seenQ := map[string]bool{}
